@@ -7,4 +7,6 @@ import SsqlVerif.Props.C15
 #print axioms C15.match_number_sequential
 #print axioms C15.flush_emits_accepting
 #print axioms C15.cep_partition_isolation
+#print axioms C15.valid_match_explored
+#print axioms C15.cep_complete_longest
 #print axioms C15.facts_cep
